@@ -582,7 +582,7 @@ type lensObs struct {
 }
 
 type dynObs struct {
-	Arg     string `json:"arg"` // val | other | nil | typednil
+	Arg     string `json:"arg"` // val | other | nil | typednil | slice | ptrptr
 	Put     bool   `json:"put"`
 	Panic   bool   `json:"panic"`
 	Changed bool   `json:"changed"`
@@ -640,7 +640,7 @@ func observeLens(sd *shapeDef, ar *arena, l any, i int, A reflect.Type, spectrum
 		o.Get1 = valueBytes(g1)
 	}
 	if spectrum && withDyn && i == 0 {
-		for _, arg := range []string{"val", "other", "nil", "typednil"} {
+		for _, arg := range []string{"val", "other", "nil", "typednil", "slice", "ptrptr"} {
 			for _, isPut := range []bool{false, true} {
 				w2, s2 := ar.instance()
 				var a reflect.Value
@@ -651,6 +651,13 @@ func observeLens(sd *shapeDef, ar *arena, l any, i int, A reflect.Type, spectrum
 					a = reflect.NewAt(reflect.TypeOf(other{}), s2)
 				case "nil":
 					a = reflect.Zero(reflect.TypeOf((*any)(nil)).Elem())
+				case "slice":
+					// []S whose only element is the container in the arena: its element type is S, it is not *S
+					a = reflect.NewAt(reflect.ArrayOf(1, sd.T), s2).Elem().Slice(0, 1)
+				case "ptrptr":
+					pp := reflect.New(reflect.PointerTo(sd.T))
+					pp.Elem().Set(reflect.NewAt(sd.T, s2))
+					a = pp
 				default:
 					a = reflect.Zero(reflect.PointerTo(sd.T))
 				}
